@@ -1,6 +1,7 @@
 import SecsModel.Proofs.SecsILineFacts
 import SecsModel.Proofs.SecsILineMsg
 import SecsModel.Proofs.SecsILineBound
+import SecsModel.Gen.BlockSend
 /-!
 # C17 — SECS-I line protocol delivers accepted messages intact, once; NAKs bad blocks
 
@@ -32,6 +33,14 @@ def enc1bytes : Bytes := [10, 0, 1, 129, 1, 128, 1, 0, 0, 0, 7, 1, 11]
 
 /-- generated handshake bytes are the SEMI E4 values (ENQ 0x05, EOT 0x04, ACK 0x06, NAK 0x15) -/
 theorem handshake_bytes : (ENQ : Nat) = 5 ∧ (EOT : Nat) = 4 ∧ (ACK : Nat) = 6 ∧ (NAK : Nat) = 21 := by decide
+
+/-- **The application thread of the model is the code's `send_message`** (facts regenerated from the source on every run): per block it
+queues a `BlockSendInfo`, waits on it *without a timeout*, gets `True` exactly for `SENT_OK` (`resolve(True)`), stops with `False`
+otherwise and returns `True` after the last block — `Model.SecsILine.appStep`.  A bounded wait, or a result test that lets the initial
+`NOT_SENT` state count as success, re-opens this obligation (and with it `delivery` / `nak`, which are about `appStep`). -/
+theorem send_message_waits :
+    Gen.BlockSend.waitUnbounded = true ∧ Gen.BlockSend.waitReturnsSentOk = true ∧ Gen.BlockSend.resolveMapsBool = true
+      ∧ Gen.BlockSend.sendWaitsEveryBlock = true := ⟨rfl, rfl, rfl, rfl⟩
 
 /-- the invariant holds in every reachable state -/
 theorem reach (ctx : Ctx) (hfr : ∀ p ∈ ctx.pairs, Framed p.1 p.2) (hbad : BadOK ctx) (aIsHost : Bool)
